@@ -443,6 +443,8 @@ def _str_consts(g: Func, a: ast.AST) -> Set[str]:
                 v = getattr(st, "value", None)
                 if isinstance(v, (ast.Tuple, ast.List, ast.Set)) or (isinstance(v, ast.Call) and unparse(v.func) in ("frozenset", "set", "tuple") and v.args):
                     out |= {c.value for c in ast.walk(v) if isinstance(c, ast.Constant) and isinstance(c.value, str)}
+                elif isinstance(v, ast.Constant) and isinstance(v.value, str):
+                    out.add(v.value)   # a named constant (`_REDIRECTION_DIR = "_dds_meta"`)
     return out
 
 
@@ -833,12 +835,49 @@ def dbfs_paths_validated(ctx: Ctx, rule: str) -> int:
             out: Set[str] = set()
             for a in atoms:
                 out |= _str_consts(g, a)
+            if not atoms:
+                # the inverted form of a check: `ok = <conditions>; if ok: return; raise ...` (also after the helper was expanded in place): the raise is what is
+                # left when the tests of the preceding statements of its block let through - their constants, and those of the boolean locals they name
+                fl_ = flow_of(prog, g)
+                par_ = g.module.parent.get(r)
+                body_ = None
+                for fld in ("body", "orelse", "finalbody"):
+                    b__ = getattr(par_, fld, None)
+                    if isinstance(b__, list) and any(x is r for x in b__):
+                        body_ = b__
+                if body_ is not None:
+                    for st_ in body_[: [i for i, x in enumerate(body_) if x is r][0]]:
+                        if isinstance(st_, ast.If):
+                            out |= _str_consts(g, st_.test)
+                            for y in ast.walk(st_.test):
+                                if isinstance(y, ast.Name):
+                                    try:
+                                        ds_ = fl_.defs_of_use(y)
+                                    except Exception:
+                                        ds_ = []
+                                    for d_ in ds_:
+                                        if d_.value is not None:
+                                            out |= _str_consts(g, d_.value)
             return out
 
         for r in [x for x in f.own_nodes() if isinstance(x, ast.Raise)]:
             cs = guard_consts(f, r)
             if {".", ".."} <= cs and (reserved & cs):
-                doms += pass_outcomes(cfg, f.module, r)[0]
+                po = pass_outcomes(cfg, f.module, r)[0]
+                if not po:
+                    # inverted form: the outcomes of the preceding tests of the block from which the raise cannot be reached ("the check let the path through")
+                    par_ = f.module.parent.get(r)
+                    for fld in ("body", "orelse", "finalbody"):
+                        b__ = getattr(par_, fld, None)
+                        if isinstance(b__, list) and any(x is r for x in b__):
+                            for st_ in b__[: [i for i, x in enumerate(b__) if x is r][0]]:
+                                if isinstance(st_, ast.If):
+                                    for bn in cfg.nodes:
+                                        if bn.kind == "branch" and bn.ast is not None and any(bn.ast is y for y in ast.walk(st_.test)):
+                                            # (within the same iteration: the next iteration of an enclosing loop evaluates the check again)
+                                            if cfg.find_path([bn], cfg.nodes_of(r), avoid=[x for x in cfg.nodes if x.kind == "loop"], include_src=False) is None:
+                                                po.append(bn)
+                doms += po
                 seen_consts |= cs
         for c in [x for x in f.own_nodes() if isinstance(x, ast.Call)]:
             fs, _ = prog.callees(f, c, ctx._types)
